@@ -31,6 +31,15 @@ import (
 func Run(cfg hx.Config) (*hx.Meta, error) {
 	meta := &hx.Meta{Property: "C08", Seed: cfg.Seed, Tier: cfg.Tier}
 	var lines []string
+	// crosspkg.go (packages that depend on each other's generated code) runs next to the other batteries,
+	// with a Meta of its own that is merged below
+	crossMeta := &hx.Meta{}
+	var crossLines []string
+	crossDone := make(chan struct{})
+	go func() {
+		crossLines = runCross(cfg, crossMeta)
+		close(crossDone)
+	}()
 	lines = append(lines, runOps(cfg, meta)...)
 	lines = append(lines, runSortPlugins(cfg, meta)...)
 	lines = append(lines, runImports(cfg, meta)...)
@@ -39,6 +48,21 @@ func Run(cfg hx.Config) (*hx.Meta, error) {
 		return nil, err
 	}
 	lines = append(lines, l...)
+	<-crossDone
+	lines = append(lines, crossLines...)
+	meta.Packages += crossMeta.Packages
+	meta.GoderiveRuns += crossMeta.GoderiveRuns
+	for k, n := range crossMeta.Distribution {
+		for i := 0; i < n; i++ {
+			meta.Count(k)
+		}
+	}
+	for _, d := range crossMeta.Direct {
+		meta.AddDirect(d)
+	}
+	for _, sm := range crossMeta.Samples {
+		meta.Sample(sm)
+	}
 	path := filepath.Join(cfg.Out, "c08.obs")
 	if err := os.WriteFile(path, []byte(strings.Join(lines, "\n")+"\n"), 0o644); err != nil {
 		return nil, err
